@@ -464,3 +464,50 @@ package core
 //@   also-modifies queryErr
 //@ func (*EvalRuleCondition).Do
 //@   ensures[C14+C04.failed_condition_not_complete] queryErr ==> w.Disposition != Complete
+
+// ---- C15: every removal / replacement of a stored rule is preceded by the remove hook ------------
+//@ ghost hookRem string
+//@ ghost hooksRun bool gate
+//@ funcval (*IndexedState).Rem.remHook
+//@   ghost-ensures hookRem == id
+//@   also-modifies hookRem
+//@   modifies allbut(F:core.IndexedState.|LK:)
+//@ funcval (*LinearState).Rem.remHook
+//@   ghost-ensures hookRem == id
+//@   also-modifies hookRem
+//@   modifies allbut(F:core.LinearState.|LK:)
+//@ func (*IndexedState).Rem
+//@   assert[C15.ix_rem_hook_first] at "s.rem(ctx, id)": s.remHook == nil || hookRem == id
+//@ func (*LinearState).Rem
+//@   assert[C15.lin_rem_hook_first] at "s.rem(ctx, id, true)": s.remHook == nil || hookRem == id
+//@ func (*IndexedState).deleteDependencies
+//@   assert[C15.ix_cascade_hook_first] at "s.rem(ctx, sr.Id)": s.remHook == nil || hookRem == sr.Id
+//@ func (*LinearState).deleteDependencies
+//@   assert[C15.lin_cascade_hook_first] at "s.rem(ctx, sr.Id, false)": s.remHook == nil || hookRem == sr.Id
+//@ func (*IndexedState).expire
+//@   assert[C15.ix_expire_hook_first] at "s.rem(ctx, id)": s.remHook == nil || hookRem == id
+//@ func (*LinearState).expire
+//@   assert[C15.lin_expire_hook_first] at "s.rem(ctx, id, false)": s.remHook == nil || hookRem == id
+//@ func (*IndexedState).add
+//@   assert[C15.ix_overwrite_hook_first] at "s.IdToFact[id]": !has(s.IdToFact, id) || s.remHook == nil || hookRem == id
+//@ func (*IndexedState).remHooks
+//@   ghost-ensures result == nil ==> hooksRun
+//@   also-modifies hooksRun
+//@ func (*IndexedState).Clear
+//@   assert[C15.ix_clear_hooks_first] at "s.Store.Clear(ctx, s.Name)": hooksRun
+//@ func (*IndexedState).Delete
+//@   assert[C15.ix_delete_hooks_first] at "s.Store.Delete(ctx, s.Name)": hooksRun
+//@ func (*LinearState).Clear
+//@   assert[C15.lin_clear_hooks_first] at "s.store.Clear(ctx, s.Name)": s.remHook == nil || hooksRun
+//@ func (*LinearState).Delete
+//@   assert[C15.lin_delete_hooks_first] at "s.store.Delete(ctx, s.Name)": s.remHook == nil || hooksRun
+
+// trigger path and one-shot removal
+//@ func OneShotSchedule
+//@   ensures[C15.oneshot_prefix] result == (len(schedule) > 0 && (schedule[0] == '+' || schedule[0] == '!'))
+//@ ghost lastRemRule string
+//@ func (*Location).RemRule
+//@   ghost-ensures lastRemRule == id
+//@   also-modifies lastRemRule
+//@ func (*RuleDone).Do
+//@   assert[C15.ruledone_removes_that_rule] at "loc.RemRule(ctx, w.Parent.Rule.Id)": len(w.Parent.Rule.Schedule) > 0 && (w.Parent.Rule.Schedule[0] == '+' || w.Parent.Rule.Schedule[0] == '!')
